@@ -55,6 +55,34 @@ theorem lazy_decode_encode (v : WValue) (rest : Bytes) (h : v.wt = true) :
     decodeLazyForced v.tcode (enc v ++ rest) = .ok (v, (rest, 0)) :=
   (strictToLazyAt _).1 _ _ _ _ (dec_enc v rest _ h (size_le_fuelFor v rest))
 
+/-- The encoding is prefix-free within a type: if the bytes of one well-typed value followed by
+anything equal the bytes of another of the same type followed by anything, the two values and
+the two remainders coincide. So a reader never has a choice where a value ends, no valid
+encoding is a proper prefix of another, and two different values never share their bytes. -/
+theorem encoding_prefix_free (v w : WValue) (r s : Bytes) (hv : v.wt = true) (hw : w.wt = true)
+    (ht : v.tcode = w.tcode) (h : enc v ++ r = enc w ++ s) : v = w ∧ r = s := by
+  have h1 := stream_decode_encode v r hv
+  have h2 := stream_decode_encode w s hw
+  rw [h, ht, h2] at h1
+  injection h1 with h1
+  injection h1 with h1 h3
+  exact ⟨h1.symm, h3.symm⟩
+
+/-- Encoding is injective on well-typed values of one type. -/
+theorem encoding_injective (v w : WValue) (hv : v.wt = true) (hw : w.wt = true)
+    (ht : v.tcode = w.tcode) (h : enc v = enc w) : v = w :=
+  (encoding_prefix_free v w [] [] hv hw ht (by simpa using h)).1
+
+/-- No valid encoding is a proper prefix of another of the same type. -/
+theorem encoding_no_proper_prefix (v w : WValue) (s : Bytes) (hv : v.wt = true) (hw : w.wt = true)
+    (ht : v.tcode = w.tcode) (h : enc v = enc w ++ s) : s = [] :=
+  ((encoding_prefix_free v w [] s hv hw ht (by simpa using h)).2).symm
+
+/-- The same-type hypothesis is needed: a bool `true` and a byte `1` are different values with
+the same bytes. -/
+example : enc (.bool true) = enc (.i8 1) ∧ (WValue.bool true) ≠ .i8 1 :=
+  ⟨by simp [enc], nofun⟩
+
 /-- Non-vacuity: a nested value with a negative field id, a NaN, an empty container with
 an arbitrary element-type byte and a map satisfies the hypothesis. -/
 example : (WValue.struct [(0xFFFF, .list 13 [.map 11 4 [(.binary [1, 2], .double 0x7ff8000000000001)]]),
